@@ -279,6 +279,19 @@ def _margin_verdict(ctx, g, nums, coords, spacing, ext, subj):
     return False, f"{head};{how}", detail
 
 
+def _shape_of(ctx, obj, exc, clause, what):
+    """Shape of the grid a monitored method was called on; an object that lost its state (a defective clone) has none:
+    the failed call is then recorded here and the monitor stops (never raises)."""
+    try:
+        return tuple(int(v) for v in obj.shape)
+    except Exception as err:  # noqa: BLE001
+        if exc is not None:
+            ctx.fail(clause, f"{type(obj).__name__}.{what}:object-without-shape", f"raised:{type(exc).__name__}", detail={"error": str(exc)[:200], "reading-shape": f"{type(err).__name__}: {err}"[:200]})
+        else:
+            ctx.count(f"{what}:object-without-shape-not-decided")
+        return None
+
+
 def _clone(ctx, subject, g, n=None):
     """Clones of ``g`` (1 kind in quick, 2 in thorough, drawn by the case generator), each compared with the original in every
     public property.  Returns [(tag, clone)] of the clones that exist."""
@@ -361,7 +374,9 @@ def setup(ctx):
         except (TypeError, ValueError):
             ctx.count("coordinates_to_index:non-numeric-input")
             return
-        shape = tuple(int(v) for v in self.shape)
+        shape = _shape_of(ctx, self, exc, "index-maps-inverse", "coordinates_to_index")
+        if shape is None:
+            return
         if arr.shape != (len(shape),) or not np.all(np.isfinite(arr)) or not np.all(arr == np.round(arr)) or np.any(arr < 0) or np.any(arr >= np.array(shape)):
             ctx.count("coordinates_to_index:outside-domain-not-decided")
             return
@@ -378,7 +393,9 @@ def setup(ctx):
         if b is None:
             return
         self, index = b
-        shape = tuple(int(v) for v in self.shape)
+        shape = _shape_of(ctx, self, exc, "index-maps-inverse", "index_to_coordinates")
+        if shape is None:
+            return
         if not isinstance(index, (int, np.integer)) or isinstance(index, bool) or index < 0 or index >= int(np.prod(shape)):
             ctx.count("index_to_coordinates:outside-domain-not-decided")
             return
@@ -402,6 +419,8 @@ def setup(ctx):
         if b is None:
             return
         self, point, which = b
+        if _shape_of(ctx, self, exc, "closest-point-nearest", "closest_point") is None:
+            return
         axes = np.asarray(self.axes, float)
         dim = self.ndim
         if which not in ("closest", "origin") or np.count_nonzero(axes - np.diag(np.diagonal(axes))) != 0:
@@ -486,6 +505,8 @@ def setup(ctx):
         if b is None:
             return
         self, points, values, use_log, nx, ny, nz, method = b
+        if _shape_of(ctx, self, exc, "interp-cubic-exact", "interpolate") is None:
+            return
         tr = _TRUTH.get(id(values))
         if tr is None or tr["values"] is not values:
             ctx.count("interpolate:call-without-registered-truth(inner/incidental)")
@@ -910,11 +931,11 @@ def _cube_roundtrip(ctx, p):
                     _decide_uniform(ctx, c, origin, axes, shape, _weight_of_case, tag)
                 writer = c  # the file is written by the clone: everything below is decided for it
                 ctx.count("generate_cube:called-on-a-clone")
-        with ctx.guard("cube-roundtrip-grid", "generate_cube"):
+        with ctx.guard("cube-roundtrip-grid", "generate_cube") as written:
             writer.generate_cube(f0, data, atcoords, atnums, pseudo_numbers=pseudo)
             ctx.hit("generate_cube")
-        if not os.path.exists(f0):
-            return
+        if not written.ok or not os.path.exists(f0):
+            return  # the writer raised (recorded above); a partial file is not read back
         parsed = ref.parse_cube(f0)
         files = [("bohr", f0, 5e-7 + 1e-12)]
         for neg in ("first", "all"):
